@@ -208,7 +208,7 @@ func genC08(g *Gen) {
 	}
 	r := g.Rng("C08")
 	for i := 0; i < n; i++ {
-		exp := []string{"-1", "0", "20", "35"}[r.Intn(4)]
+		exp := []string{"-1", "0", "20", "35", "9223372036854"}[r.Intn(5)]
 		cl := []string{"0", "10", "25"}[r.Intn(3)]
 		vt := []string{"int", "str"}[r.Intn(2)]
 		var ops []string
@@ -216,7 +216,8 @@ func genC08(g *Gen) {
 		for j := 0; j < length; j++ {
 			k := itoa(r.Intn(3))
 			v := itoa(r.Intn(5))
-			d := []string{"0", "-1", "10", "20", "30", "7"}[r.Intn(6)]
+			// the last one: the longest duration there is (in ms): "for ever"; its deadline lies beyond the int64 range
+			d := []string{"0", "-1", "10", "20", "30", "7", "9223372036854"}[r.Intn(7)]
 			p := r.Intn(100)
 			switch {
 			case p < 20:
